@@ -313,17 +313,6 @@ class DataFrame(Entity, DataSet):
         for i, row in enumerate(self._read_data(slc=row_sl)[list(column)]):
             print(row_form.format("  [{}]:".format(ridx[i]), *row))
 
-    @staticmethod
-    def _python_scalar(cell):
-        """
-        A NumPy scalar assigned to a field of a row is cast without a range
-        check (np.int64(300) becomes 44 in a uint8 column, -1 becomes 255);
-        the Python scalar it stands for is refused like in every other write.
-        """
-        if isinstance(cell, np.generic):
-            return cell.item()
-        return cell
-
     def _find_idx_by_name(self, name):
         for i, col_name in enumerate(self.column_names):
             if col_name == name:
@@ -334,6 +323,17 @@ class DataFrame(Entity, DataSet):
         if self.column_names[idx]:
             return self.column_names[idx]
         return None
+
+    @staticmethod
+    def _python_scalar(cell):
+        """
+        A NumPy scalar assigned to a field of a row is cast without a range
+        check (np.int64(300) becomes 44 in a uint8 column, -1 becomes 255);
+        the Python scalar it stands for is refused like in every other write.
+        """
+        if isinstance(cell, np.generic):
+            return cell.item()
+        return cell
 
     def row_count(self):
         """
